@@ -641,6 +641,13 @@ impl CanonicalizeContext {
 					if has_prescripts ^ (n_children % 2 == 0) {
 						bail!("{} has the wrong number of children:\n{}", element_name, mml_to_string(&mathml));
 					}
+					// the scripts come in pairs, so the (single) mprescripts must be the 2nd, 4th, ... child
+					let is_misplaced_or_repeated_prescripts = mathml.children().iter().enumerate()
+							.filter(|(_, &child)| name(&as_element(child)) == "mprescripts")
+							.any(|(i, _)| i % 2 == 0 || mathml.children()[..i].iter().any(|&child| name(&as_element(child)) == "mprescripts"));
+					if is_misplaced_or_repeated_prescripts {
+						bail!("{} has a misplaced or repeated mprescripts:\n{}", element_name, mml_to_string(&mathml));
+					}
 				},
 				"mlongdiv" => if n_children < 3 {
 					bail!("{} should have at least 3 children:\n{}", element_name, mml_to_string(&mathml));
